@@ -7,3 +7,4 @@ CONSTRAINT HighWater
 INVARIANT TypeOK
 POSTCONDITION TraceAccepted
 CHECK_DEADLOCK FALSE
+CONSTANT LeafElemErrAtList = TRUE
